@@ -443,13 +443,6 @@ Definition norm_item (ri : ritem) : item :=
   {| i_id := ri_id ri; i_tr := ri_tr ri; i_rule := norm_group (ri_rule ri); i_det := norm_group (ri_det ri);
      i_field := norm_group (ri_field ri) |}.
 
-(* ---- domain of the step theorem ---- *)
-Definition has_fapplied (g : ngroup fcond) : bool :=
-  existsb (fun kv => match snd kv with FApplied _ => true | _ => false end) (n_conds g).
-Definition tracking_safe (it : item) : bool := negb (is_renaming (i_tr it) && has_fapplied (i_field it)).
-Definition no_one_to_many (it : item) : bool :=
-  match i_tr it with TFieldMap m => forallb (fun kv => match snd kv with MMany _ => false | _ => true end) m | _ => true end.
-
 Definition has_conds (it : item) : bool :=
   negb (no_conds (i_rule it)) || negb (no_conds (i_det it)) || negb (no_conds (i_field it)).
 
